@@ -79,3 +79,14 @@ reg("C11",
     "LiveRender.position_cursor. No pre-emption inside a bytecode; <= 4 workers. Screen rejections attributable to the stale-erase race are reported as KNOWN-FINDING.",
     "TLA+ specs ConsoleConc.tla + Screen.tla; TLC model check of all interleavings of the fine-grain model + TLC validation of histories recorded from real threads under a deterministic scheduler (systematic pre-emption-bounded DFS, random, PCT)",
     "DESIGN.md §4 C11, §5")
+
+reg("C19",
+    "Part (b) redirected output: FileProxy.tla gives write()/flush() their meaning through Sgr.tla, an SGR/OSC-8 pen automaton written in TLA+ independently of "
+    "Rich's decoder: the written chunks, concatenated, are interpreted as a terminal would; MC_FileProxy (M1) checks for every chunking of a stream into writes "
+    "of 0..3 events with flushes that everything consumed is shown exactly once, in order, with the terminal's pens.  Every TLC-enumerated chunking and seeded "
+    "random streams cut at arbitrary character positions (inside escape sequences, empty writes, many newlines, ESC[m, 256/24-bit colours, markup-/emoji-like "
+    "text) run on a real FileProxy + truecolor console; both the chunks and the console's output are tokenised lexically and TLC decodes both with Sgr.tla and "
+    "compares line by line, character by character, pen by pen (trace validation).  Part (a), decoder round trip, is judged by the same automaton (see C03).",
+    "Trusted: engine/sgrlex.py (lexical tokeniser). Console wide enough not to wrap; CR/BS/VT/FF excluded; flush of an escape-only pending fragment not judged.",
+    "TLA+ specs FileProxy.tla + Sgr.tla; TLC model check over all chunkings + TLC-generated chunkings replayed on the real FileProxy + TLC trace validation (TLC decodes the input and the output stream)",
+    "DESIGN.md §4 C19")
